@@ -2,6 +2,7 @@ import RTA.Lemmas.RosNaive
 import RTA.Lemmas.RrSound
 import RTA.Lemmas.BwSound
 import RTA.Lemmas.ExecRefine
+import RTA.Lemmas.ExecRunMeets
 import RTA.Spec.Ros2Exec
 /-! # C05 — the RTSS'21 round-robin-aware (rr) and busy-window-aware (bw) analyses are safe
 
@@ -165,6 +166,64 @@ theorem bw_safe_lts (cbs : List Exec.Cb) (sigma : Nat → Bool) (rels : Nat → 
       Sched.MeetsBound (Exec.toSys cbs sigma rels H) j (wl.getD ((Exec.toSys cbs sigma rels H).task j) default).rtb :=
   Sched.bw_singleton_sound _ sigma _ (Exec.run_polling_legal cbs sigma rels H hidx hfin hcb) sup hs hsbf wl C
     hscalar hwf htask hkinds hprio hN hcost limit dbg hself
+
+/-- C05 for rr in terms of the completions that the executable `Exec.run` reports on ANY finite
+prefix of the supply process: every reported completion `(i, release, completion)` satisfies
+`completion ≤ release + rtb_i` (`rr_safe_lts` + `Exec.run_meets_of_sys`) -/
+theorem rr_safe_run (cbs : List Exec.Cb) (sigma : Nat → Bool) (rels : Nat → List Nat) (H : Nat)
+    (hidx : ∀ t, ∀ i ∈ rels t, i < cbs.length) (hfin : ∀ t, H ≤ t → rels t = [])
+    (hcb : ∀ c ∈ cbs, 1 ≤ c.cost)
+    (sup : Supply) (hs : sup.WF) (hsbf : ∀ t d, sup.sbf d ≤ service sigma t d)
+    (wl : List Callback) (C : Nat → Nat)
+    (hscalar : ∀ i, i < wl.length → (wl.getD i default).cost = .scalar (C i))
+    (hwf : ∀ cb ∈ wl, cb.arr.WF)
+    (htask : ∀ k, k < (Exec.toSys cbs sigma rels H).n → (Exec.toSys cbs sigma rels H).task k < wl.length)
+    (hkinds : Sched.KindsAgree wl (Exec.toInfo cbs sigma rels))
+    (hprio : ∀ i j, i < wl.length → j < wl.length → (Exec.toInfo cbs sigma rels).isTimer i = false →
+      (Exec.toInfo cbs sigma rels).isTimer j = false →
+      (Exec.toInfo cbs sigma rels).prio i = (Exec.toInfo cbs sigma rels).prio j → i = j)
+    (hN : ∀ i t d, Sched.countOf (Exec.toSys cbs sigma rels H) i t (t + d) ≤ (wl.getD i default).arr.N d)
+    (hcost : ∀ k, k < (Exec.toSys cbs sigma rels H).n →
+      1 ≤ (Exec.toSys cbs sigma rels H).cost k ∧
+      (Exec.toSys cbs sigma rels H).cost k ≤ C ((Exec.toSys cbs sigma rels H).task k))
+    (limit : Nat)
+    (hself : ∀ i, i < wl.length → ∃ R, rrSubchain sup wl [i] limit = .ok R ∧ R ≤ (wl.getD i default).rtb)
+    (n i : Nat) :
+    ∀ o ∈ Exec.run cbs (fun _ => none) ((List.range n).map sigma) rels, o.1 = i →
+      o.2.2 ≤ o.2.1 + (wl.getD i default).rtb :=
+  Exec.run_meets_of_sys cbs sigma rels H hidx hfin hcb i _
+    (fun j hj hji => by
+      have := rr_safe_lts cbs sigma rels H hidx hfin hcb sup hs hsbf wl C hscalar hwf htask hkinds hprio hN
+        hcost limit hself j hj
+      rwa [hji] at this) n
+
+/-- and for bw -/
+theorem bw_safe_run (cbs : List Exec.Cb) (sigma : Nat → Bool) (rels : Nat → List Nat) (H : Nat)
+    (hidx : ∀ t, ∀ i ∈ rels t, i < cbs.length) (hfin : ∀ t, H ≤ t → rels t = [])
+    (hcb : ∀ c ∈ cbs, 1 ≤ c.cost)
+    (sup : Supply) (hs : sup.WF) (hsbf : ∀ t d, sup.sbf d ≤ service sigma t d)
+    (wl : List Callback) (C : Nat → Nat)
+    (hscalar : ∀ i, i < wl.length → (wl.getD i default).cost = .scalar (C i))
+    (hwf : ∀ cb ∈ wl, cb.arr.WF ∧ cb.arr.Exact)
+    (htask : ∀ k, k < (Exec.toSys cbs sigma rels H).n → (Exec.toSys cbs sigma rels H).task k < wl.length)
+    (hkinds : Sched.KindsAgree wl (Exec.toInfo cbs sigma rels))
+    (hprio : ∀ i j, i < wl.length → j < wl.length → (Exec.toInfo cbs sigma rels).isTimer i = false →
+      (Exec.toInfo cbs sigma rels).isTimer j = false →
+      (Exec.toInfo cbs sigma rels).prio i = (Exec.toInfo cbs sigma rels).prio j → i = j)
+    (hN : ∀ i t d, Sched.countOf (Exec.toSys cbs sigma rels H) i t (t + d) ≤ (wl.getD i default).arr.N d)
+    (hcost : ∀ k, k < (Exec.toSys cbs sigma rels H).n →
+      1 ≤ (Exec.toSys cbs sigma rels H).cost k ∧
+      (Exec.toSys cbs sigma rels H).cost k ≤ C ((Exec.toSys cbs sigma rels H).task k))
+    (limit : Nat) (dbg : Bool)
+    (hself : ∀ i, i < wl.length → ∃ R, bwSubchain sup wl [i] limit dbg = .ok R ∧ R ≤ (wl.getD i default).rtb)
+    (n i : Nat) :
+    ∀ o ∈ Exec.run cbs (fun _ => none) ((List.range n).map sigma) rels, o.1 = i →
+      o.2.2 ≤ o.2.1 + (wl.getD i default).rtb :=
+  Exec.run_meets_of_sys cbs sigma rels H hidx hfin hcb i _
+    (fun j hj hji => by
+      have := bw_safe_lts cbs sigma rels H hidx hfin hcb sup hs hsbf wl C hscalar hwf htask hkinds hprio hN
+        hcost limit dbg hself j hj
+      rwa [hji] at this) n
 
 /-- analysis side: rr = naive linear-scan evaluation -/
 theorem rr_is_naive (s : Supply) (hs : s.WF) (wl : List Callback) (sub : List Nat) (limit : Nat)
